@@ -1263,6 +1263,45 @@ theorem inv3_step (n : Nat) (s s' : Sys) (hreach : Reachable n s) (h : Inv3 n s)
           apply hagree k' (by omega) (by omega)
           rw [← termAt_succ _ k' (by omega), hterm, hmsg.pterm, termAt_succ _ k' (by omega)]
         · rw [hl, List.take_take, Nat.min_self]
+  | fsmApply i =>
+    rcases fsmApply_cases n s i with heq | ⟨e, _, heq⟩
+    · rw [heq]; exact h
+    · rw [heq]
+      apply inv3_frame n s _ h
+      · intro j; simp only [setNode_nodes]; split
+        · rename_i hj; subst hj; rfl
+        · rfl
+      · intro j; simp only [setNode_nodes]; split
+        · rename_i hj; subst hj; exact Nat.le_refl _
+        · exact Nat.le_refl _
+      · rfl
+      · rfl
+      · rfl
+      · rfl
+      · rfl
+      · intro c u li lt; rfl
+      · intro v l t k' hm; exact hm
+      · intro c; simp only [setNode_nodes]; split
+        · rename_i hj; subst hj; intro hc; exact ⟨rfl, hc⟩
+        · intro hc; exact ⟨rfl, hc⟩
+  | fsmRestore i =>
+    apply inv3_frame n s _ h
+    · intro j; simp only [apply, setNode_nodes]; split
+      · rename_i hj; subst hj; rfl
+      · rfl
+    · intro j; simp only [apply, setNode_nodes]; split
+      · rename_i hj; subst hj; exact Nat.le_refl _
+      · exact Nat.le_refl _
+    · rfl
+    · rfl
+    · rfl
+    · rfl
+    · rfl
+    · intro c u li lt; rfl
+    · intro v l t k' hm; exact hm
+    · intro c; simp only [apply, setNode_nodes]; split
+      · rename_i hj; subst hj; intro hc; exact ⟨rfl, hc⟩
+      · intro hc; exact ⟨rfl, hc⟩
   | advanceCommit i k Q =>
     apply inv3_frame n s _ h
     · intro j; simp only [apply, setNode_nodes]; split
